@@ -42,8 +42,8 @@ ASSUMPTIONS = [
     "the stream flowing (<= 1.1 MiB, the receiver's own packet limit is 1 MiB) before it demands the disconnect",
     "the observation point is SSHTransportBase.dispatchMessage (public, documented); KEXINIT is recorded, not processed",
 ]
-MIN = {"quick": {"evaluations": 280000, "nontrivial": 260000, "outcomes": 4},
-       "thorough": {"evaluations": 400000, "nontrivial": 300000, "outcomes": 4}}
+MIN = {"quick": {"evaluations": 285000, "nontrivial": 265000, "outcomes": 3},
+       "thorough": {"evaluations": 400000, "nontrivial": 300000, "outcomes": 3}}
 
 MSG_IGNORE, MSG_KEXINIT, MSG_NEWKEYS, MSG_DATA = 2, 20, 21, 94
 
